@@ -435,4 +435,265 @@ MUTANTS = [
         return self.transform(f, axis=axis, inplace=inplace)""", """        def f(val, id_, _):
             return scipy.stats.rankdata(val, method=method) + (val < 0)
         return self.transform(f, axis=axis, inplace=inplace)""", ["C13"]),
+ ("c17-list-dict-orientation", T, """        if n_rows > n_cols:
+            is_col = True
+            n_cols = len(data)
+        else:
+            is_col = False
+            n_rows = len(data)
+
+    rows = []""", """        if n_rows >= n_cols:
+            is_col = True
+            n_cols = len(data)
+        else:
+            is_col = False
+            n_rows = len(data)
+
+    rows = []""", ["C17"]),
+ ("c17-dict-ignores-shape", T, """    if shape is None:
+        n_rows = max(data.keys(), key=itemgetter(0))[0] + 1
+        n_cols = max(data.keys(), key=itemgetter(1))[1] + 1
+    else:
+        n_rows, n_cols = shape
+
+    rows = []
+    cols = []
+    vals = []
+    for (r, c), v in data.items():""", """    if True:
+        n_rows = max(data.keys(), key=itemgetter(0))[0] + 1
+        n_cols = max(data.keys(), key=itemgetter(1))[1] + 1
+
+    rows = []
+    cols = []
+    vals = []
+    for (r, c), v in data.items():""", ["C17"]),
+ ("c17-obsdup-tests-samples", "biom/err.py", """    ids = t.ids(axis='observation')
+    return len(ids) != len(set(ids))""", """    ids = t.ids(axis='sample')
+    return len(ids) != len(set(ids))""", ["C17", "C20"]),
+ ("c17-uc-counts-L", "biom/parse.py", """        if line_type == 'H' or line_type == 'S':
+            # get the sample id""", """        if line_type in 'HSL':
+            # get the sample id""", ["C17"]),
+ ("c17-adjacency-swapped", T, """        row = np.array([obs_index[obs] for obs in observations], dtype=int)
+        col = np.array([samp_index[samp] for samp in samples], dtype=int)
+        data = np.asarray(values)
+        mat = coo_matrix((data, (row, col)))""", """        row = np.array([obs_index[obs] for obs in observations], dtype=int)
+        col = np.array([samp_index[samp] for samp in samples], dtype=int)
+        data = np.asarray(values)
+        mat = coo_matrix((data, (row, col[::-1])))""", ["C17"]),
+ ("c17-md-size-check-off", "biom/err.py", """    md = t.metadata(axis='sample')
+    return t.shape[1] != len(md) if md is not None else False""", """    md = t.metadata(axis='sample')
+    return t.shape[1] > len(md) if md is not None else False""", ["C17"]),
+ ("c17-cast-metadata-accepts-lists", T, """                    if isinstance(item, dict):
+                        d.update(item)
+                    elif item is None:
+                        pass""", """                    if isinstance(item, dict):
+                        d.update(item)
+                    elif item is None or isinstance(item, list):
+                        pass""", ["C17"]),
+ ("c17-bool-array-as-int8", T, """    matrix = coo_matrix(data, shape=shape, dtype=dtype)
+    matrix = matrix.tocsr()
+    matrix.eliminate_zeros()
+    return matrix
+
+
+def list_nparray_to_sparse""", """    matrix = coo_matrix(data, shape=shape, dtype=dtype)
+    matrix = matrix.tocsr()
+    matrix.eliminate_zeros()
+    if data.dtype == bool:
+        matrix = matrix * 2
+    return matrix
+
+
+def list_nparray_to_sparse""", ["C17"]),
+ ("c17-uc-first-underscore", "biom/parse.py", """                underscore_index = query_id.rindex('_')""", """                underscore_index = query_id.index('_') + 1""", ["C17"]),
+ ("c17-fasta-map-reversed", "biom/cli/uc_processor.py", """            result[seq_id] = obs_id[1:]""", """            result[seq_id] = obs_id[1:][::-1]""", ["C17"]),
+ ("c17-adjacency-header-kept", T, """        if not include_line_zero:
+            lines = lines[1:]""", """        if not include_line_zero:
+            lines = lines[2:]""", ["C17"]),
+ # list_sparse_to_sparse orientation guess `>` -> `>=` is equivalent: scipy
+ # ignores the shape argument when the input already is a sparse matrix.
+ ("c18-update-becomes-assign", T, """                    idx = self.index(id_, axis=axis)
+                    metadata[idx].update(md_entry)""", """                    idx = self.index(id_, axis=axis)
+                    metadata[idx].clear()
+                    metadata[idx].update(md_entry)""", ["C18"]),
+ ("c18-exists-check-dropped", T, """            for id_, md_entry in md.items():
+                if self.exists(id_, axis=axis):
+                    idx = self.index(id_, axis=axis)""", """            for id_, md_entry in md.items():
+                if True:
+                    idx = self.index(id_, axis=axis)""", ["C18"]),
+ ("c18-del-any-empty-to-none", T, """            empties = {True if not md else False
+                       for md in self.metadata(axis=ax)}
+            if empties == {True, }:""", """            empties = {True if not md else False
+                       for md in self.metadata(axis=ax)}
+            if True in empties:""", ["C18"]),
+ ("c18-del-whole-only-sample", T, """        if axis == 'whole':
+            axes = ['sample', 'observation']
+        elif axis in ('sample', 'observation'):
+            axes = [axis]
+        else:
+            raise UnknownAxisError("%s is not recognized" % axis)""", """        if axis == 'whole':
+            axes = ['sample']
+        elif axis in ('sample', 'observation'):
+            axes = [axis]
+        else:
+            raise UnknownAxisError("%s is not recognized" % axis)""", ["C18"]),
+ ("c18-header-override-off-by-one", "biom/parse.py", """            for k, v in zip(header[1:], vals[1:]):""", """            for k, v in zip(header[1:], vals[2:] if len(header) < len(vals) else vals[1:]):""", ["C18"]),
+ ("c18-int-applied-to-float", "biom/cli/metadata_adder.py", """        process_fns.update(dict.fromkeys(float_fields, _float))""", """        process_fns.update(dict.fromkeys(float_fields, _int))""", ["C18"]),
+ ("c18-short-rows-not-padded", "biom/parse.py", """                if len(tmp_line) < len(header):
+                    tmp_line.extend([''] * (len(header) - len(tmp_line)))""", """                if len(tmp_line) < len(header) - 1:
+                    tmp_line.extend([''] * (len(header) - len(tmp_line)))""", ["C18"]),
+ ("c18-comment-becomes-header", "biom/parse.py", r"""                if not header:
+                    header = line.strip().split('\t')
+                else:
+                    comments.append(line)""", r"""                header = line.strip().split('\t')""", ["C18"]),
+ ("c18-quotes-kept", "biom/parse.py", """                def strip_f(x):
+                    # remove quotes and spaces
+                    return x.replace('"', '').strip()""", """                def strip_f(x):
+                    # remove quotes and spaces
+                    return x.strip()""", ["C18"]),
+ ("c18-add-md-new-axis-by-md-order", T, """                self._observation_metadata = tuple(
+                    md[id_] if id_ in md else None for id_ in ids)""", """                self._observation_metadata = tuple(
+                    md[id_] if id_ in md else {} for id_ in sorted(ids))""", ["C18"]),
+ ("c18-cli-adds-obs-md-to-samples", "biom/cli/metadata_adder.py", """    if observation_metadata:
+        table.add_metadata(observation_metadata, axis='observation')""", """    if observation_metadata:
+        table.add_metadata(observation_metadata, axis='sample')""", ["C18"]),
+ ("c18-sc-separated-no-strip", "biom/cli/metadata_adder.py", """def _split_on_semicolons(x):
+    return [e.strip() for e in x.split(';')]""", """def _split_on_semicolons(x):
+    return [e for e in x.split(';')]""", ["C18"]),
+ ("c19-sum-axes-swapped", T, """        elif axis == 'sample':
+            axis = 0
+        elif axis == 'observation':
+            axis = 1
+        else:
+            raise UnknownAxisError(axis)
+
+        matrix_sum =""", """        elif axis == 'sample':
+            axis = 1
+        elif axis == 'observation':
+            axis = 0
+        else:
+            raise UnknownAxisError(axis)
+
+        matrix_sum =""", ["C19"]),
+ ("c19-min-over-dense", T, """            for idx, data in enumerate(self.iter_data(dense=False, axis=axis)):
+                min_val[idx] = data.data.min()""", """            for idx, data in enumerate(self.iter_data(dense=True, axis=axis)):
+                min_val[idx] = data.min()""", ["C19"]),
+ ("c19-max-whole-over-observations", T, """            max_val = -np.inf
+            for data in self.iter_data(dense=False):
+                # only min over the actual nonzero values
+                max_val = max(max_val, data.data.max())""", """            max_val = -np.inf
+            for data in self.iter_data(dense=False):
+                # only min over the actual nonzero values
+                max_val = max(max_val, data.data.min())""", ["C19"]),
+ ("c19-density-one-axis", T, """            density = (self.nnz /
+                       (len(self.ids()) * len(self.ids(axis='observation'))))""", """            density = (self.nnz /
+                       (len(self.ids()) * len(self.ids())))""", ["C19", "C05"]),
+ ("c19-summarize-observations-no-transpose", "biom/cli/table_summarizer.py", """    if observations:
+        table = table.transpose()
+""", """    if observations:
+        table = table.copy()
+""", ["C19"]),
+ ("c19-dataframe-index-swapped", T, """        index = self.ids(axis='observation')
+        columns = self.ids()
+
+        import pandas as pd""", """        index = self.ids(axis='observation')[::-1]
+        columns = self.ids()
+
+        import pandas as pd""", ["C19"]),
+ ("c19-nonzero-counts-binary-sum", T, """            def op(x):
+                return x.nonzero()[0].size""", """            def op(x):
+                return (x > 0).sum()""", ["C19"]),
+ ("c19-stats-median-as-mean", "biom/util.py", """                median(counts),
+                mean(counts),""", """                mean(counts),
+                mean(counts),""", ["C19"]),
+ ("c19-stats-binary-positive", "biom/util.py", """            sample_counts[sample_id] = (count_vector != 0).sum()""", """            sample_counts[sample_id] = (count_vector > 0).sum() + (count_vector < 0).sum() * 0""", []),
+ ("c19-table-ids-axis", "biom/cli/table_ids.py", """    for id_ in tab.ids(axis='observation' if observations else 'sample'):""", """    for id_ in tab.ids(axis='sample' if observations else 'sample'):""", ["C19"]),
+ ("c19-head-swaps-n-m", "biom/cli/table_head.py", """    table = load_table(input_fp).head(n=n_obs, m=n_samp)""", """    table = load_table(input_fp).head(n=n_samp, m=n_obs)""", ["C19"]),
+ ("c19-summary-std-of-sorted-half", "biom/cli/table_summarizer.py", """                 std(counts_per_sample_values), grouping=True))""", """                 std(counts_per_sample_values[:-1] or counts_per_sample_values), grouping=True))""", ["C19"]),
+ ("c19-reduce-wrong-axis", T, """        return asarray([reduce(f, v) for v in self.iter_data(axis=axis)])""", """        return asarray([reduce(f, v) for v in self.iter_data(axis=self._invert_axis(axis))])""", ["C19"]),
+ ("c19-export-metadata-wrong-axis", "biom/cli/metadata_exporter.py", """        _export_metadata(table, 'observation', input_fp,
+                         observation_metadata_fp)""", """        _export_metadata(table, 'sample', input_fp,
+                         observation_metadata_fp)""", ["C19"]),
+ ("c19-md-dataframe-expand-last", T, """            if len(columns) > len(mcols):
+                mcols = columns
+                mexpand = expand""", """            if len(columns) > len(mcols):
+                mcols = columns
+            mexpand = expand""", ["C19"]),
+ ("c20-errstate-no-finally", "biom/err.py", """    old_state = seterr(**kwargs)
+    try:
+        yield
+    finally:
+        seterr(**old_state)""", """    old_state = seterr(**kwargs)
+    yield
+    seterr(**old_state)""", ["C20"]),
+ ("c20-seterr-not-atomic", "biom/err.py", """        to_update = list(to_update)
+        for errtype, new_state in to_update:
+            if new_state not in self._valid_states:
+                raise KeyError("Unknown state type: %s" % new_state)
+            if errtype not in self._state:
+                raise KeyError("Unknown error type: %s" % errtype)
+
+        for errtype, new_state in to_update:
+            self._state[errtype] = new_state""", """        for errtype, new_state in to_update:
+            if new_state not in self._valid_states:
+                raise KeyError("Unknown state type: %s" % new_state)
+            if errtype not in self._state:
+                raise KeyError("Unknown error type: %s" % errtype)
+
+            self._state[errtype] = new_state""", ["C20"]),
+ ("c20-dup-test-by-shape", "biom/err.py", """    ids = t.ids(axis='observation')
+    return len(ids) != len(set(ids))""", """    return t.shape[0] != len(set(t.ids(axis='observation')))""", ["C20"]),
+ ("c20-all-first-kind-only", "biom/err.py", """            to_update = [(err, new_state['all']) for err in self._state]""", """            to_update = [(err, new_state['all']) for err in list(self._state)[:1]]""", ["C20"]),
+ ("c20-warn-print-swapped", "biom/err.py", """            'warn': lambda x: warn(msg),""", """            'warn': lambda x: stdout.write(msg + '\\n'),""", ["C20"]),
+ ("c20-seterr-returns-new", "biom/err.py", """    old_state = __errprof.state.copy()
+    if 'all' in kwargs:
+        __errprof.state = {'all': kwargs['all']}
+    else:
+        __errprof.state = kwargs
+    return old_state""", """    old_state = __errprof.state.copy()
+    if 'all' in kwargs:
+        __errprof.state = {'all': kwargs['all']}
+    else:
+        __errprof.state = kwargs
+    return __errprof.state.copy()""", ["C20"]),
+ ("c20-unknown-kind-ignored", "biom/err.py", """            if errtype not in self._state:
+                raise KeyError("Unknown error type: %s" % errtype)
+
+        for errtype""", """            if errtype not in self._state:
+                continue
+
+        for errtype""", ["C20"]),
+ ("c20-filter-skips-errcheck", T, """            table._index_ids(None, self._sample_index.copy())
+
+        errcheck(table)
+
+        return table""", """            table._index_ids(None, self._sample_index.copy())
+
+        return table""", ["C20"]),
+ ("c20-ctor-validates-after-cast", T, """        if validate:
+            errcheck(self)
+
+        # These will be set by _index_ids()""", """        if validate:
+            errcheck(self, 'obssize', 'sampsize', 'obsdup', 'sampdup',
+                     'obsmdsize', 'sampmdsize')
+
+        # These will be set by _index_ids()""", ["C20"]),
+ ("c20-call-gets-message", "biom/err.py", """        state = self._state[errtype]
+        profile = self._profile[errtype]
+        return profile[state](item)""", """        state = self._state[errtype]
+        profile = self._profile[errtype]
+        if state == 'call':
+            return profile[state](errtype)
+        return profile[state](item)""", ["C20"]),
+ ("c20-seterrcall-unknown-accepted", "biom/err.py", """    if errtype not in __errprof:
+        raise KeyError("Unknown error type: %s" % errtype)
+    else:
+        return __errprof.setcall(errtype, func)""", """    if errtype not in __errprof:
+        return None
+    else:
+        return __errprof.setcall(errtype, func)""", ["C20"]),
+ ("c20-errstate-restores-default", "biom/err.py", """    finally:
+        seterr(**old_state)""", """    finally:
+        seterr(all='raise')
+        seterr(empty='ignore')""", ["C20"]),
 ]
